@@ -7,7 +7,8 @@ use std::time::Instant;
 
 pub fn run(cfg: &Config) -> i32 {
 	let started = Instant::now();
-	let thorough = cfg.tier == Tier::Thorough;
+	let thorough = cfg.tier == Tier::Thorough && !cfg.san;
+	let small = if cfg.san { 1 } else { 0 };
 	let flags = Flags {
 		c07: true,
 		..Default::default()
@@ -17,10 +18,12 @@ pub fn run(cfg: &Config) -> i32 {
 		total.inconclusive.push(format!("oracle self-test failed: {}", m))
 	}
 	let mut add = |total: &mut Report, (r, _): (Report, Vec<u8>)| total.merge(r);
-	add(&mut total, pf::fam_sigma(cfg, flags, "sigma-c-strings", &crate::gen::SIGMA_C, if thorough { 6 } else { 5 }));
-	add(&mut total, pf::fam_sigma(cfg, flags, "sigma-t-token-sequences", &crate::gen::SIGMA_T, if thorough { 6 } else { 5 }));
+	add(&mut total, pf::fam_sigma(cfg, flags, "sigma-c-strings", &crate::gen::SIGMA_C, if thorough { 6 } else { 5 - small }));
+	add(&mut total, pf::fam_sigma(cfg, flags, "sigma-t-token-sequences", &crate::gen::SIGMA_T, if thorough { 6 } else { 5 - small }));
 	add(&mut total, pf::fam_lexical(cfg, flags));
-	add(&mut total, pf::fam_bytes(cfg, flags, thorough));
+	if !cfg.san {
+		add(&mut total, pf::fam_bytes(cfg, flags, thorough));
+	}
 	add(&mut total, pf::fam_corpus(cfg, flags, thorough));
 	add(&mut total, pf::fam_surrogates(cfg, flags, if thorough { 6 } else { 4 }));
 	add(&mut total, pf::fam_edit_every_position(cfg, flags, cfg.budget(3_000, 100_000)));
@@ -39,7 +42,7 @@ pub fn run(cfg: &Config) -> i32 {
 		},
 		total,
 		started,
-		1_000_000,
+		if cfg.san { 100_000 } else { 1_000_000 },
 	)
 	.exit
 }
